@@ -3,6 +3,10 @@
 # applies the patch to /repo, runs the check, undoes the patch. Expected: VIOLATION for every seed.
 # usage: tools/seeds_regress.sh [seed-id ...]      (never leaves /repo modified)
 cd /verif
+# evidence written while a seeded change is applied must not replace the evidence of the unchanged tree
+rm -rf .work/evidence_backup; mkdir -p .work; cp -r evidence .work/evidence_backup
+restore_evidence() { rm -rf /verif/evidence; cp -r /verif/.work/evidence_backup /verif/evidence; }
+trap restore_evidence EXIT
 ids="$@"; [ -z "$ids" ] && ids=$(ls seeded)
 miss=0
 for id in $ids; do
